@@ -12,7 +12,7 @@ def units(tier):
                expect=('accepts:raw', 'accepts:gpg', 'rejects:SignatureError', 'rejects:TypeError'), max_witnesses=300)]
     if not q:
         us.append(Unit('verify_signable:N3', vsign.factory('v3', PROPS, N=3, M=3, Loh=4, junk=False), expect=('accepts:raw', 'accepts:gpg'), max_witnesses=600))
-        us.append(Unit('verify_signable:rich', vsign.factory('vr', PROPS, N=1, M=2, Loh=6, rich=True, junk=True, any_args=True,
+        us.append(Unit('verify_signable:rich', vsign.factory('vr', PROPS, N=1, M=1, Loh=6, rich=True, junk=True, any_args=True,
                                                              thr_kinds=('int', 'bool', 'float', 'none', 'str'), modes=(True, False, 1, 0, None, 'x')),
                        expect=('accepts:raw', 'accepts:gpg'), max_witnesses=600))
     return us
